@@ -27,7 +27,9 @@ Escape(v) == IF v = <<>> THEN <<>>
 RECURSIVE Unescape(_)
 Unescape(r) == IF r = <<>> THEN <<>>
                ELSE IF Head(r) = "b" /\ Len(r) >= 2
-                    THEN <<(IF r[2] = "n" THEN "ctl" ELSE r[2])>> \o Unescape(SubSeq(r, 3, Len(r)))
+                    THEN (IF r[2] = "n" THEN <<"ctl">>
+                          ELSE IF r[2] = "L" THEN <<"b", "L">>      \* the pattern's dot does not match a line feed: kept as it is
+                          ELSE <<r[2]>>) \o Unescape(SubSeq(r, 3, Len(r)))
                ELSE <<Head(r)>> \o Unescape(Tail(r))
 EscRaw(v) == <<"q">> \o Escape(v) \o <<"q">>
 EscParse(r) == Unescape(SubSeq(r, 2, Len(r) - 1))
@@ -107,7 +109,18 @@ SetRaw(v, i) == /\ steps < Depth /\ InDomain(kind, v)
                                          raw |-> Format(kind, i, v)])
                 /\ UNCHANGED kind
 
-Next == \/ \E v \in Strings : SetValue(v)
+\* raw_text = ANY lexeme of the string terminal: quotes around a body in which every quote is escaped (the harness
+\* requires the real lexer to take each of them for one string token with the value computed here)
+SetRawLexeme(body) ==
+    /\ steps < Depth /\ kind = "string" /\ NoBareQuote(body, FALSE)
+    /\ raw' = <<"q">> \o body \o <<"q">> /\ value' = EscParse(<<"q">> \o body \o <<"q">>)
+    /\ steps' = steps + 1
+    /\ hist' = Append(hist, [op |-> "rawlex", value |-> EscParse(<<"q">> \o body \o <<"q">>), indent |-> indent,
+                             raw |-> <<"q">> \o body \o <<"q">>])
+    /\ UNCHANGED <<kind, indent>>
+
+Next == \/ \E body \in Strings : SetRawLexeme(body)
+        \/ \E v \in Strings : SetValue(v)
         \/ \E i \in Indents : SetIndent(i)
         \/ \E v \in Strings : \E i \in (IF kind = "block" THEN Indents ELSE {<<>>}) : SetRaw(v, i)
 
